@@ -96,6 +96,15 @@ type Call struct {
 	// slice instead of nil.
 	Pre      []PreAct `json:"pre,omitempty"`
 	PreEmpty bool     `json:"pre_empty,omitempty"`
+	// PreCap: spare capacity of that Actions slice (cap = len + PreCap), as a slice built with append usually has.
+	PreCap int `json:"pre_cap,omitempty"`
+	// Reuse: 0 = the call is handed a new object; k > 0 = it is handed the very object (same pointer) that call k-1
+	// (same op) was handed — a caller keeping one template Sequence / Checks / Action. The object fields of the call
+	// (name, descr, plugin, pre, key, ...) then repeat those of call k-1. Honoured only if call k-1 supplied a new
+	// object of this kind to the plan under construction (since the last successful New/Reset) and was accepted;
+	// otherwise a new object with the same content is used (see runner.origin). AddBlock takes its arguments by value,
+	// so there is no Block object to reuse.
+	Reuse int `json:"reuse,omitempty"`
 	// Key (0 = uuid.Nil) of block / sequence / action / checks; block arguments.
 	Key        int `json:"key,omitempty"`
 	Conc       int `json:"conc,omitempty"`
@@ -127,7 +136,7 @@ func render(c Call) string {
 		if c.NilArg {
 			b.WriteString(",nil")
 		} else {
-			fmt.Fprintf(&b, ",pre=%s", renderPre(c))
+			fmt.Fprintf(&b, ",pre=%s%s", renderPre(c), renderReuse(c))
 		}
 	case opAddBlock:
 		fmt.Fprintf(&b, "%q,%q", c.Name, c.Descr)
@@ -135,21 +144,31 @@ func render(c Call) string {
 		if c.NilArg {
 			b.WriteString("nil")
 		} else {
-			fmt.Fprintf(&b, "%q,%q,pre=%s", c.Name, c.Descr, renderPre(c))
+			fmt.Fprintf(&b, "%q,%q,pre=%s%s", c.Name, c.Descr, renderPre(c), renderReuse(c))
 		}
 	case opAddAction:
 		if c.NilArg {
 			b.WriteString("nil")
 		} else {
-			fmt.Fprintf(&b, "%q,%q,%q", c.Name, c.Descr, c.Plugin)
+			fmt.Fprintf(&b, "%q,%q,%q%s", c.Name, c.Descr, c.Plugin, renderReuse(c))
 		}
 	}
 	b.WriteByte(')')
 	return b.String()
 }
 
+func renderReuse(c Call) string {
+	if c.Reuse > 0 {
+		return fmt.Sprintf(",same-object-as-call-%d", c.Reuse-1)
+	}
+	return ""
+}
+
 func renderPre(c Call) string {
 	if len(c.Pre) == 0 {
+		if c.PreCap > 0 {
+			return fmt.Sprintf("[]cap%d", c.PreCap)
+		}
 		if c.PreEmpty {
 			return "[]"
 		}
@@ -162,6 +181,9 @@ func renderPre(c Call) string {
 		} else {
 			s[i] = p.Name
 		}
+	}
+	if c.PreCap > 0 {
+		return fmt.Sprintf("[%s]cap+%d", strings.Join(s, " "), c.PreCap)
 	}
 	return "[" + strings.Join(s, " ") + "]"
 }
@@ -192,13 +214,20 @@ type args struct {
 }
 
 func preActions(c Call) []*workflow.Action {
+	extra := c.PreCap
+	if extra < 0 || extra > 8 {
+		extra = 0
+	}
 	if len(c.Pre) == 0 {
+		if extra > 0 {
+			return make([]*workflow.Action, 0, extra)
+		}
 		if c.PreEmpty {
 			return []*workflow.Action{}
 		}
 		return nil
 	}
-	out := make([]*workflow.Action, 0, len(c.Pre))
+	out := make([]*workflow.Action, 0, len(c.Pre)+extra)
 	for _, p := range c.Pre {
 		if p.Nil {
 			out = append(out, nil)
@@ -273,6 +302,24 @@ type interp struct {
 	errAfterEmit bool // ... and it was a use after emission
 	plan         *workflow.Plan
 	stack        []any // *workflow.Plan, *workflow.Block, *workflow.Sequence, *workflow.Checks
+	// planC / stackC: the same hierarchy under the other acceptable meaning of handing one object to several calls.
+	// plan ("adopt") holds the caller's one object at every position it was added to, which is literally what direct
+	// construction with the same pointer yields: what is added at one position shows at all of them. planC ("copy")
+	// holds at every position an independent copy of the object as the caller made it, plus what was added at that
+	// position. The statement does not choose (after FA-6 a builder may adopt or copy its arguments); the shapes of the
+	// two trees are always identical and without reuse so are their contents.
+	planC  *workflow.Plan
+	stackC []any
+	// cands: per op, the calls that handed a new object to the plan under construction and were accepted — the
+	// objects a later call of this plan may be handed again.
+	cands map[string][]int
+}
+
+func (in *interp) topC() any {
+	if len(in.stackC) == 0 {
+		return nil
+	}
+	return in.stackC[len(in.stackC)-1]
 }
 
 func (in *interp) top() any {
@@ -443,15 +490,17 @@ func (in *interp) classify(c Call) verdict {
 }
 
 func (in *interp) fresh(c Call) {
-	p := &workflow.Plan{Name: c.Name, Descr: c.Descr}
+	p, pc := &workflow.Plan{Name: c.Name, Descr: c.Descr}, &workflow.Plan{Name: c.Name, Descr: c.Descr}
 	if c.Group == 1 {
-		p.GroupID = uuidOf(groupKey)
+		p.GroupID, pc.GroupID = uuidOf(groupKey), uuidOf(groupKey)
 	}
-	*in = interp{have: true, plan: p, stack: []any{p}}
+	*in = interp{have: true, plan: p, stack: []any{p}, planC: pc, stackC: []any{pc}}
 }
 
-// apply advances the reference by one call whose outcome (accepted / reported as an error) is known.
-func (in *interp) apply(c Call, a args, v verdict, accepted bool) {
+// apply advances the reference by one call whose outcome (accepted / reported as an error) is known. a holds the
+// reference twin of the caller's object (one per object, shared by all calls that are handed that object), ac a copy of
+// the object as the caller made it, private to this call; idx is the index of the call.
+func (in *interp) apply(c Call, a, ac args, v verdict, accepted bool, idx int) {
 	if v.kind == vSkip || v.kind == vSticky {
 		return
 	}
@@ -475,34 +524,54 @@ func (in *interp) apply(c Call, a args, v verdict, accepted bool) {
 		in.inErr, in.errAfterEmit = true, in.emitted
 		return
 	}
-	top := in.top()
+	top, topC := in.top(), in.topC()
+	if c.Reuse == 0 && (c.Op == opAddChecks || c.Op == opAddSequence || c.Op == opAddAction) {
+		if in.cands == nil {
+			in.cands = map[string][]int{}
+		}
+		in.cands[c.Op] = append(in.cands[c.Op], idx)
+	}
 	switch c.Op {
 	case opAddChecks:
 		*slot(top, c.CType) = a.checks
 		in.stack = append(in.stack, a.checks)
+		*slot(topC, c.CType) = ac.checks
+		in.stackC = append(in.stackC, ac.checks)
 	case opAddBlock:
-		p := top.(*workflow.Plan)
 		ba := blockArgs(c)
-		blk := &workflow.Block{
-			Key: ba.Key, Name: ba.Name, Descr: ba.Descr, EntranceDelay: ba.EntranceDelay, ExitDelay: ba.ExitDelay,
-			Concurrency: ba.Concurrency, ToleratedFailures: ba.ToleratedFailures,
+		mk := func() *workflow.Block {
+			return &workflow.Block{
+				Key: ba.Key, Name: ba.Name, Descr: ba.Descr, EntranceDelay: ba.EntranceDelay, ExitDelay: ba.ExitDelay,
+				Concurrency: ba.Concurrency, ToleratedFailures: ba.ToleratedFailures,
+			}
 		}
+		p, blk := top.(*workflow.Plan), mk()
 		p.Blocks = append(p.Blocks, blk)
 		in.stack = append(in.stack, blk)
+		pc, blkC := topC.(*workflow.Plan), mk()
+		pc.Blocks = append(pc.Blocks, blkC)
+		in.stackC = append(in.stackC, blkC)
 	case opAddSequence:
 		b := top.(*workflow.Block)
 		b.Sequences = append(b.Sequences, a.seq)
 		in.stack = append(in.stack, a.seq)
+		bc := topC.(*workflow.Block)
+		bc.Sequences = append(bc.Sequences, ac.seq)
+		in.stackC = append(in.stackC, ac.seq)
 	case opAddAction:
-		switch t := top.(type) {
-		case *workflow.Sequence:
-			t.Actions = append(t.Actions, a.action)
-		case *workflow.Checks:
-			t.Actions = append(t.Actions, a.action)
+		// an Action has nothing below it and is never written to: the twin serves both trees
+		for _, t := range []any{top, topC} {
+			switch t := t.(type) {
+			case *workflow.Sequence:
+				t.Actions = append(t.Actions, a.action)
+			case *workflow.Checks:
+				t.Actions = append(t.Actions, a.action)
+			}
 		}
 	case opUp:
 		if len(in.stack) > 1 { // an accepted Up() at the root (unfixed) leaves the position at the root
 			in.stack = in.stack[:len(in.stack)-1]
+			in.stackC = in.stackC[:len(in.stackC)-1]
 		}
 	case opPlan:
 		in.emitted = true
@@ -526,7 +595,11 @@ type rawCall struct {
 	CType, Group                       int
 	Pre                                []PreAct
 	PreEmpty                           bool
+	PreCap                             int
 	Key, Conc, Tol, EntranceMs, ExitMs int
+	// Reuse: hand the call an object an earlier call of this plan was handed (ReusePick selects which), if there is one.
+	Reuse     bool
+	ReusePick int
 }
 
 const (
@@ -575,6 +648,12 @@ var rawGen = rapid.Custom(func(t *rapid.T) rawCall {
 	if n == 0 {
 		r.PreEmpty = rapid.Bool().Draw(t, "preEmpty")
 	}
+	// spare capacity in the Actions slice of the argument (what append leaves behind), in half of the objects
+	if rapid.Bool().Draw(t, "spare") {
+		r.PreCap = rapid.IntRange(1, 3).Draw(t, "preCap")
+	}
+	r.Reuse = chance(t, "reuse", 3)
+	r.ReusePick = rapid.IntRange(0, 39).Draw(t, "reusePick")
 	return r
 })
 
@@ -653,7 +732,7 @@ func continuations(in *interp) []weighted {
 }
 
 // resolve makes the i-th call from raw material and the reference state before the call.
-func resolve(r rawCall, in *interp, i int) Call {
+func resolve(r rawCall, in *interp, i int, prev []Call) Call {
 	c := Call{Op: r.Op}
 	arbitrary := r.Mode == modeArbitrary
 	switch {
@@ -749,6 +828,25 @@ func resolve(r rawCall, in *interp, i int) Call {
 		if len(c.Pre) == 0 {
 			c.PreEmpty = r.PreEmpty
 		}
+		c.PreCap = r.PreCap
+	}
+	// Argument reuse (valid continuations only): the caller keeps one template object and hands it to several calls of
+	// the plan it is building. The most recent objects are preferred, so that "AddSequence(tmpl), AddAction, Up,
+	// AddSequence(tmpl), AddAction" is common.
+	if r.Mode == modeValid && r.Reuse && in.have && !in.inErr && !in.emitted {
+		if cands := in.cands[c.Op]; len(cands) > 0 {
+			k := r.ReusePick % (2 * len(cands))
+			if k >= len(cands) {
+				k = len(cands) - 1 - (k-len(cands))/2 // bias to the later ones
+			}
+			o := cands[k]
+			c = withObjectOf(c, prev[o])
+			c.Reuse = o + 1
+			if c.Op == opAddChecks {
+				c.CType = ctype
+			}
+			return c
+		}
 	}
 	switch c.Op {
 	case opNew, opReset:
@@ -798,10 +896,10 @@ func genProgram(t *rapid.T) BuilderProgram {
 	p := BuilderProgram{}
 	for i, r := range raws {
 		r.setMode(rate)
-		c := resolve(r, in, i)
+		c := resolve(r, in, i, p.Calls)
 		p.Calls = append(p.Calls, c)
 		v := in.classify(c)
-		in.apply(c, materialize(c), v, predictAccepted(c, v))
+		in.apply(c, materialize(c), materialize(c), v, predictAccepted(c, v), i)
 	}
 	// Most programs end by asking for the plan, so that the tree (or the sticky error) is observed: 1 = Plan() wherever
 	// the program stands (below the root its legality is not fixed by the statement), 2..3 = Up() to the root first,
@@ -821,8 +919,8 @@ func genProgram(t *rapid.T) BuilderProgram {
 // executing and judging
 
 type emittedRec struct {
-	got, want *workflow.Plan
-	at        int
+	got, want, wantC *workflow.Plan // want: reference tree ("adopt" reading of reuse), wantC: "copy" reading
+	at               int
 }
 
 type suppliedRec struct {
@@ -842,9 +940,46 @@ type runner struct {
 	holds    int         // objects of emitted plans that are the caller's own objects
 	copies   int         // ... that are equal copies of them
 	emitted  []emittedRec
-	supplied []suppliedRec
+	supplied []*suppliedRec
+	calls    []Call
 	misuses  int
 	seqDepth bool // the reference reached plan > block > sequence
+	// argument reuse
+	objs        map[int]*suppliedRec // by the index of the call that first handed the object in
+	grownAt     map[int]map[any]bool // origin call -> positions (copy-tree objects) of that object that received an AddAction
+	copyMatches int                  // positions of emitted plans that equal the copy reading but not the adopt reading
+	posOrigin   map[any]int          // copy-tree Checks/Sequence object (= one position) -> origin call of the object there
+	reuseGrown  bool                 // current plan: an object handed to two calls grew at both positions
+}
+
+// origin returns the index of the call whose object call i is handed again, or -1 when call i gets a new object.
+// Reuse is honoured only for an object that was handed, as a new object, to an accepted call of the same op on the plan
+// under construction: across a Reset/New the caller's own aliasing could change a plan that was already emitted, and
+// what the statement says about that is nothing.
+func (r *runner) origin(c Call) int {
+	if c.Reuse <= 0 || c.NilArg {
+		return -1
+	}
+	o := c.Reuse - 1
+	for _, k := range r.in.cands[c.Op] {
+		if k == o && r.objs[o] != nil {
+			return o
+		}
+	}
+	return -1
+}
+
+// withObjectOf gives call c the object fields of the call that first supplied the object (they describe the object;
+// generated programs already repeat them).
+func withObjectOf(c, o Call) Call {
+	c.Name, c.Descr, c.Plugin, c.Pre, c.PreEmpty, c.PreCap, c.Key = o.Name, o.Descr, o.Plugin, o.Pre, o.PreEmpty, o.PreCap, o.Key
+	switch c.Op {
+	case opAddChecks:
+		c.EntranceMs = o.EntranceMs
+	case opAddAction:
+		c.Tol, c.ExitMs = o.Tol, o.ExitMs
+	}
+	return c
 }
 
 func (r *runner) label(l string) { r.labels[l] = true }
@@ -932,14 +1067,30 @@ func stickyRule(got error, class string) string {
 // step executes call i against the real builder and the reference; it returns true when the program must stop
 // (a violation was recorded: the state of the builder is no longer defined by the statement).
 func (r *runner) step(i int, c Call) bool {
+	org := r.origin(c)
+	if org >= 0 {
+		c = withObjectOf(c, r.calls[org])
+	} else {
+		c.Reuse = 0
+	}
 	v := r.in.classify(c)
 	if v.kind == vSkip {
 		r.label("skipped:no-builder")
 		return false
 	}
-	real, ref := materialize(c), materialize(c)
-	r.pair(ref, real)
-	r.supplied = append(r.supplied, suppliedRec{ref: ref, real: real, snap: materialize(c), at: i})
+	// real: what the builder is handed; ref: its reference twin; cpy: a copy private to this call (copy reading)
+	var real, ref args
+	cpy := materialize(c)
+	if org >= 0 {
+		real, ref = r.objs[org].real, r.objs[org].ref
+	} else {
+		real, ref = materialize(c), materialize(c)
+		r.pair(ref, real)
+		rec := &suppliedRec{ref: ref, real: real, snap: materialize(c), at: i}
+		r.supplied = append(r.supplied, rec)
+		r.objs[i] = rec
+		org = i
+	}
 	class := r.stateClass(c)
 
 	var (
@@ -996,7 +1147,7 @@ func (r *runner) step(i int, c Call) bool {
 				r.res.Fail("C20/new:nil-builder", "call %d %s returned neither a builder nor an error", i, render(c))
 				return true
 			}
-			r.b, r.sticky = nb, nil
+			r.b, r.sticky, r.reuseGrown = nb, nil, false
 			var e error
 			if p := guard(func() { e = nb.Err() }); p != nil {
 				r.res.Fail("C20/panic:Err:clean", "Err() after call %d %s panicked: %v", i, render(c), p)
@@ -1007,7 +1158,7 @@ func (r *runner) step(i int, c Call) bool {
 				return true
 			}
 		}
-		r.in.apply(c, ref, v, accepted)
+		r.in.apply(c, ref, ref, v, accepted, i)
 		return false
 	}
 
@@ -1067,7 +1218,7 @@ func (r *runner) step(i int, c Call) bool {
 		}
 		if c.Op == opReset {
 			r.label("reset-ok")
-			r.sticky = nil
+			r.sticky, r.reuseGrown = nil, false
 		}
 	} else {
 		// the first misuse since the last successful New/Reset: its error value must be the sticky one
@@ -1105,8 +1256,10 @@ func (r *runner) step(i int, c Call) bool {
 		}
 	}
 
-	r.in.apply(c, ref, v, accepted)
+	topBefore := r.in.topC()
+	r.in.apply(c, ref, cpy, v, accepted, i)
 	if accepted {
+		r.noteReuse(c, org, i, topBefore)
 		if _, ok := r.in.top().(*workflow.Sequence); ok {
 			r.seqDepth = true
 		}
@@ -1123,14 +1276,48 @@ func (r *runner) step(i int, c Call) bool {
 		}
 		// "yields exactly the plan that directly constructing the same hierarchy would yield";
 		// "never silently drops or misplaces an object"
-		if cls, msg := r.diffPlan(gotPlan, r.in.plan); cls != "" {
+		if cls, msg := r.diffPlan(gotPlan, r.in.plan, r.in.planC); cls != "" {
 			r.res.Fail("C20/plan-differs:"+cls, "plan emitted by call %d differs from direct construction: %s", i, msg)
 			return true
 		}
 		r.noteIdentity(gotPlan, r.in.plan)
-		r.emitted = append(r.emitted, emittedRec{got: gotPlan, want: r.in.plan, at: i})
+		if r.reuseGrown {
+			r.label("emitted:reused-object-grown-at-2-positions")
+		}
+		r.emitted = append(r.emitted, emittedRec{got: gotPlan, want: r.in.plan, wantC: r.in.planC, at: i})
 	}
 	return false
+}
+
+// noteReuse keeps the labels of the argument-reuse class for an accepted call.
+func (r *runner) noteReuse(c Call, org, i int, topBefore any) {
+	switch c.Op {
+	case opAddChecks, opAddSequence:
+		// remember which object stands at this position (the copy tree has one object per position)
+		r.posOrigin[r.in.topC()] = org
+		if org != i {
+			r.label("reuse:" + c.Op)
+		}
+		if c.PreCap > 0 {
+			r.label("arg:spare-capacity")
+		}
+	case opAddAction:
+		if org != i {
+			r.label("reuse:" + c.Op)
+		}
+		if o, ok := r.posOrigin[topBefore]; ok {
+			if r.grownAt[o] == nil {
+				r.grownAt[o] = map[any]bool{}
+			}
+			r.grownAt[o][topBefore] = true
+			if len(r.grownAt[o]) >= 2 {
+				// one object, handed to two calls, and an action was added at both positions: the case in which
+				// the two readings differ and a builder that shares storage between its copies loses an action
+				r.label("reuse:object-grown-at-2-positions")
+				r.reuseGrown = true
+			}
+		}
+	}
 }
 
 func (r *runner) unfixed(v verdict, accepted bool) {
@@ -1163,7 +1350,7 @@ func errStr(e error) string {
 // tree" (no-ops), nothing is appended to a plan that was already emitted or replaced by Reset/New.
 func (r *runner) finish() {
 	for _, em := range r.emitted {
-		if cls, msg := r.diffPlan(em.got, em.want); cls != "" {
+		if cls, msg := r.diffPlan(em.got, em.want, em.wantC); cls != "" {
 			r.res.Fail("C20/emitted-plan-modified:"+cls, "plan emitted by call %d was modified by later calls: %s", em.at, msg)
 			return
 		}
@@ -1336,17 +1523,47 @@ func blockNames(bs []*workflow.Block) string {
 	return "[" + strings.Join(s, " ") + "]"
 }
 
-func (r *runner) diffGroups(path string, got, want [5]*workflow.Checks) (string, string) {
+// either accepts a position of the emitted plan that equals the reference under one of the two readings of argument
+// reuse (wantA: the caller's one object at every position; wantC: an independent copy per position). Without reuse the
+// two are equal. A position that matches neither is a dropped or misplaced object.
+func (r *runner) either(path string, diff func(want int) (string, string)) (string, string) {
+	cls, msg := diff(0)
+	if cls == "" {
+		return "", ""
+	}
+	if c2, m2 := diff(1); c2 == "" {
+		r.copyMatches++
+		return "", ""
+	} else if m2 != msg {
+		msg += " | as independent copies: " + m2
+	}
+	return cls, msg
+}
+
+func (r *runner) diffGroups(path string, got, want, wantC [5]*workflow.Checks) (string, string) {
 	names := [5]string{"BypassChecks", "PreChecks", "ContChecks", "PostChecks", "DeferredChecks"}
 	for i := range names {
-		if cls, msg := r.diffChecks(path+"."+names[i], got[i], want[i]); cls != "" {
+		i := i
+		if cls, msg := r.either(path, func(k int) (string, string) {
+			return r.diffChecks(path+"."+names[i], got[i], [2]*workflow.Checks{want[i], wantC[i]}[k])
+		}); cls != "" {
 			return cls, msg
 		}
 	}
 	return "", ""
 }
 
-func (r *runner) diffPlan(got, want *workflow.Plan) (string, string) {
+func groupsOfPlan(p *workflow.Plan) [5]*workflow.Checks {
+	return [5]*workflow.Checks{p.BypassChecks, p.PreChecks, p.ContChecks, p.PostChecks, p.DeferredChecks}
+}
+
+func groupsOfBlock(b *workflow.Block) [5]*workflow.Checks {
+	return [5]*workflow.Checks{b.BypassChecks, b.PreChecks, b.ContChecks, b.PostChecks, b.DeferredChecks}
+}
+
+// diffPlan compares an emitted plan with the reference tree want (and wantC, the same tree under the copy reading of
+// argument reuse: identical shape, only the contents of Checks / Sequences that stem from a reused object can differ).
+func (r *runner) diffPlan(got, want, wantC *workflow.Plan) (string, string) {
 	g, w := *got, *want
 	gg := [5]*workflow.Checks{g.BypassChecks, g.PreChecks, g.ContChecks, g.PostChecks, g.DeferredChecks}
 	wg := [5]*workflow.Checks{w.BypassChecks, w.PreChecks, w.ContChecks, w.PostChecks, w.DeferredChecks}
@@ -1355,7 +1572,7 @@ func (r *runner) diffPlan(got, want *workflow.Plan) (string, string) {
 	if !reflect.DeepEqual(g, w) {
 		return "plan-fields", fmt.Sprintf("Plan: got %+v want %+v", g, w)
 	}
-	if cls, msg := r.diffGroups("Plan", gg, wg); cls != "" {
+	if cls, msg := r.diffGroups("Plan", gg, wg, groupsOfPlan(wantC)); cls != "" {
 		return cls, msg
 	}
 	if len(got.Blocks) != len(want.Blocks) {
@@ -1363,7 +1580,7 @@ func (r *runner) diffPlan(got, want *workflow.Plan) (string, string) {
 	}
 	for bi := range want.Blocks {
 		path := fmt.Sprintf("Plan.Blocks[%d]", bi)
-		gb, wb := got.Blocks[bi], want.Blocks[bi]
+		gb, wb, wbC := got.Blocks[bi], want.Blocks[bi], wantC.Blocks[bi]
 		if gb == nil {
 			return "block-nil", path + " is nil"
 		}
@@ -1375,14 +1592,18 @@ func (r *runner) diffPlan(got, want *workflow.Plan) (string, string) {
 		if !reflect.DeepEqual(g, w) {
 			return "block-fields", fmt.Sprintf("%s: got %+v want %+v", path, g, w)
 		}
-		if cls, msg := r.diffGroups(path, gg, wg); cls != "" {
+		if cls, msg := r.diffGroups(path, gg, wg, groupsOfBlock(wbC)); cls != "" {
 			return cls, msg
 		}
 		if len(gb.Sequences) != len(wb.Sequences) {
 			return "seqs-len", fmt.Sprintf("%s.Sequences: %s, want %s", path, seqNames(gb.Sequences), seqNames(wb.Sequences))
 		}
 		for si := range wb.Sequences {
-			if cls, msg := r.diffSeq(fmt.Sprintf("%s.Sequences[%d]", path, si), gb.Sequences[si], wb.Sequences[si]); cls != "" {
+			si := si
+			sp := fmt.Sprintf("%s.Sequences[%d]", path, si)
+			if cls, msg := r.either(sp, func(k int) (string, string) {
+				return r.diffSeq(sp, gb.Sequences[si], [2]*workflow.Sequence{wb.Sequences[si], wbC.Sequences[si]}[k])
+			}); cls != "" {
 				return cls, msg
 			}
 		}
@@ -1391,7 +1612,8 @@ func (r *runner) diffPlan(got, want *workflow.Plan) (string, string) {
 }
 
 func checkProgram(p BuilderProgram) (res vprop.Result) {
-	r := &runner{res: &res, labels: map[string]bool{}, pairs: map[any]any{}}
+	r := &runner{res: &res, labels: map[string]bool{}, pairs: map[any]any{}, calls: p.Calls,
+		objs: map[int]*suppliedRec{}, grownAt: map[int]map[any]bool{}, posOrigin: map[any]int{}}
 	sample := make([]string, 0, len(p.Calls))
 	for _, c := range p.Calls {
 		sample = append(sample, render(c))
@@ -1427,6 +1649,9 @@ func checkProgram(p BuilderProgram) (res vprop.Result) {
 		r.label("len:6-15")
 	default:
 		r.label("len:16-40")
+	}
+	if r.copyMatches > 0 {
+		r.label("emitted:position-equals-copy-reading-only")
 	}
 	if r.holds > 0 {
 		r.label("emitted:holds-caller-objects")
